@@ -814,7 +814,7 @@ class Entity(Block):
         for name, port in template._info.ports.items():
             # check that the connected object can be assigned to the port, a copy of the
             # value is used because the port object is shared by all instances of the entity
-            _type_qualifier.TypeQualifier.decay(port).copy()._assign(
+            _type_qualifier.TypeQualifier.decay(port.copy())._assign(
                 _type_qualifier.TypeQualifier.decay(port_definitions[name])
             )
 
